@@ -11,11 +11,12 @@ SPEC = {
     ],
     'rule': 'schedules of 4-12 harness actions (Observe of 1-5 or all 8 pool messages, incl. a second message carrying an '
             'already used message id; return of a running fetch as ready / supported-token-not-ready / error / missing entry / '
-            'wrong slot count; sleep past the 25 ms expiry; Close with fetches running and messages waiting; Observe after Close) '
+            'wrong slot count; sleep past the 25 ms expiry; class refetch: fetched ok -> served -> past expiry -> asked again -> picked up -> '
+            'returned, with and without a failed fetch first; Close with fetches running and messages waiting; Observe after Close) '
             'on a fresh NewBackgroundObserver with 1-3 workers (class saturate: 1 worker, batches of 8; class never: fetches left to '
             'the 150 ms observe timeout at Close; 30% with a 2 ms cleanup loop). Every underlying fetch blocks on a harness channel; '
-            'worker pick-ups are recorded as they reach the gate. Observables: Observe result or Blocked (300 ms watchdog), queue '
-            'length / running fetches after quiescence, cache size, Close returned within 2 s, goroutine count back to the count '
+            'worker pick-ups are recorded as they reach the gate. Observables: Observe result or Blocked (300 ms watchdog), ids '
+            'waiting in the queue (in-package view) / ids held at the gate after quiescence, cache size, Close returned within 2 s, goroutine count back to the count '
             'before the observer was built. Samples whose Observe straddled an expiry instant are discarded and redrawn. '
             'non-trivial = >= 6 events; distinct by full input+output',
     'trusted': ['the underlying TokenDataObserver is an oracle (gate-controlled fake); it is assumed to return when its context ends',
@@ -27,11 +28,11 @@ SPEC = {
                     'time advances between enqueue and dequeue (availableAt strictly in the past when a worker dequeues)',
                     'Close is called once (a second Close panics: close of closed channel)',
                     'for "eventually fetched": fair scheduling and fetches that return (observe timeout honoured)'],
-    'level_text': 'PARTIAL. Proof: 13 Coq theorems over the transition-system model of the REPAIRED observer, for every schedule '
+    'level_text': 'PARTIAL. Proof: 14 Coq theorems over the transition-system model of the REPAIRED observer, for every schedule '
                   '(invariant by induction over event lists): Observe completes as a single step in every reachable state with one '
                   'entry per message and one slot per token; returned data is the placeholder or cached data whose supported tokens '
                   'are all ready and unexpired, stored by a fetch that returned it; id set = waiting messages, no duplicates, one '
-                  'pending signal per waiting message (no lost wake-up), a waiting message is not queued again; taking the oldest '
+                  'pending signal per waiting message (no lost wake-up), a waiting message is not queued again; after Observe (and any pick-ups) every asked message is cached, waiting or being fetched; taking the oldest '
                   'message is enabled whenever a worker is idle, otherwise a running fetch frees one; after Close nothing restarts and '
                   'every worker and signal sender can exit leaving nothing behind. Pre-repair code refuted: Observe blocks with 1 worker '
                   'and 2 uncached messages (F22a), expired data is served (F22b). '
